@@ -41,9 +41,9 @@ var c11Alphabet = []string{
 }
 
 func c11Spec(tier string) *HSpec {
-	depth := 3
+	depth := 4
 	if tier == "thorough" {
-		depth = 4
+		depth = 5
 	}
 	spec := &HSpec{
 		Prop: "C11", Name: "C11", Depth: depth,
@@ -97,9 +97,15 @@ func c11Extra(h *HWorld, op HOp, o *HObs) []Violation {
 		}
 		host = strings.Replace(host, "*", "x", 1)
 		path := s.Paths[0]
-		tlsOn, _ := optTLS(s.Opt)
 		if name, _ := h.M.route(host, path); name != n {
 			continue // shadowed
+		}
+		// use the scheme under which the model forwards the request
+		tlsOn := false
+		if w0, _, _ := h.predictCell(Cell{Host: host, Path: path}); strings.HasPrefix(w0, "301") {
+			tlsOn = true
+		} else if w0 == "503-tls" {
+			continue
 		}
 		// health path actually probed
 		wantHP := vHealthPath
